@@ -267,4 +267,9 @@ def cases(tier, seed=0):
                 for tr in ("joint", "marginal", "conditional"):
                     out.append(trans_case(tr, kind, 2, 2, Rc, Rx, semi=("Sx", "Sy"), timeout=1800))
                     out.append(trans_case(tr, kind, 2, 2, Rc, Rx, semi=("M", "Sx"), timeout=1800))
+    # heteroscedastic conditionals conditioned on x (A square, and A wide: see known findings)
+    from .c17 import coherence_case
+    for link, signs in (("exp", None), ("cosh", None), ("step", [1]), ("relu", [1])):
+        for (Dx, Dy, Da, Dk) in ((1, 1, 1, 1), (2, 2, 2, 1), (1, 1, 2, 1)):
+            out.append(coherence_case(link, Dx, Dy, Da, Dk, signs=signs, prop=PROP))
     return out
